@@ -81,6 +81,8 @@ impl MetadataSlab {
     /// Returns a cloned `TensorData` to avoid holding the lock.
     #[must_use]
     pub fn get(&self, key: &str) -> Option<TensorData> {
+        #[cfg(neumann_verif)]
+        crate::verif_hooks::yield_point("store.meta.get");
         self.shards[shard_index(key)].read().get(key).cloned()
     }
 
@@ -95,6 +97,8 @@ impl MetadataSlab {
     ///
     /// If the key already exists, the old value is replaced.
     pub fn set(&self, key: &str, value: TensorData) {
+        #[cfg(neumann_verif)]
+        crate::verif_hooks::yield_point("store.meta.set");
         let value_bytes = estimate_tensor_data_bytes(&value);
         let idx = shard_index(key);
         let mut shard = self.shards[idx].write();
@@ -120,6 +124,8 @@ impl MetadataSlab {
 
     /// Delete a key and return the old value.
     pub fn delete(&self, key: &str) -> Option<TensorData> {
+        #[cfg(neumann_verif)]
+        crate::verif_hooks::yield_point("store.meta.del");
         let idx = shard_index(key);
         let mut shard = self.shards[idx].write();
         shard.remove(key).inspect(|old| {
